@@ -256,9 +256,10 @@ def run_shard(spec, rng, ctx):
     phase_end = t0 + span * 0.6
     while time.time() < phase_end:
         k = rng.randint(1, 6)
-        hi = rng.choice([10, 100, 10 ** 6])
+        hi = rng.choice([3, 6, 10, 100, 10 ** 6, 2 ** 40, 2 ** 49])
         sums = sorted(rng.randint(0, hi) for _ in range(k))
-        R = rng.choice([0, rng.randint(0, 20), rng.randint(0, hi * k)])
+        R = rng.choice([0, rng.randint(0, 20), rng.randint(0, hi * k), sum(sums[-1] - x for x in sums) + rng.choice([-1, 0, 1, k, k + 1]) if True else 0])
+        R = max(0, R)
         judge_lb({"kind": "lb", "objective": rng.choice(LB_NAMES), "sums": sums, "R": R}, ctx)
         judge_tree(draw_tree(rng), ctx)
         judge_comb(draw_comb(rng), ctx)
